@@ -2,13 +2,13 @@ package simrt
 
 import (
 	"cmp"
-	"sync/atomic"
-	mrand "math/rand/v2"
-	"time"
 	"fmt"
+	mrand "math/rand/v2"
 	"reflect"
 	"runtime"
 	"sort"
+	"sync/atomic"
+	"time"
 )
 
 // Recv replaces `<-ch`.
